@@ -77,6 +77,8 @@ def run(case, ctx):
     D = int(rng.choice([1, 2, 2, 3]))
     sp = tuple(int(v) for v in rng.integers(1, 4, size=D))
     n_steps, past = int(rng.integers(1, 7)), int(rng.integers(1, 5))
+    if case["i"] % 12 == 11:
+        n_steps, past = int(rng.integers(12, 25)), int(rng.integers(6, 10))  # long rollouts
     sig = gen_sig(rng, D)
     torus = tuple(bool(v) for v in rng.integers(0, 2, size=D))
     const_dict = {t: cc for t, _, cc in sig if cc > 0}
